@@ -107,6 +107,38 @@ theorem sections_structure (q : Quirks) (K : Kernel) (n : Nat) (gs : List AGate)
     (secs : List Section) (h : decompile q K n gs = .ok secs) : Decomp q K n 0 gs secs :=
   decompile_decomp q K n gs secs h
 
+/-- index form, for every circuit and every quirk setting (`cl q` = passes the decompiler's
+classical test, `np` = barrier / no-op): the reported ranges are increasing and disjoint; each
+range is non-empty, lies inside the circuit, starts at a classical gate, contains only classical
+gates and no-ops, and its gate list is the classical gates of the range in order; every
+classical gate of the circuit lies in a reported range; two reported ranges are separated by a
+gate that is neither classical nor a no-op (maximality) -/
+theorem sections_exact (q : Quirks) (K : Kernel) (n : Nat) (gs : List AGate)
+    (secs : List Section) (h : decompile q K n gs = .ok secs) :
+    secs.Pairwise (fun x y => x.stop < y.start) ∧
+    (∀ s ∈ secs, s.start < s.stop ∧ s.stop ≤ gs.length ∧
+      (∃ g, gs[s.start]? = some g ∧ cl q g = true) ∧
+      (∀ k, s.start ≤ k → k < s.stop → ∃ g, gs[k]? = some g ∧ (cl q g = true ∨ np g = true)) ∧
+      s.gates = ((gs.drop s.start).take (s.stop - s.start)).filter (cl q)) ∧
+    (∀ k g, gs[k]? = some g → cl q g = true → ∃ s ∈ secs, s.start ≤ k ∧ k < s.stop) ∧
+    secs.Pairwise (fun x y => ∃ k g, x.stop ≤ k ∧ k < y.start ∧ gs[k]? = some g ∧
+      cl q g = false ∧ np g = false) := by
+  have hd := decompile_decomp q K n gs secs h
+  refine ⟨hd.ordered, ?_, ?_, ?_⟩
+  · intro s hs
+    have hg := hd.secGood s hs
+    refine ⟨hg.lt, by simpa using hg.hi, by simpa using hg.first, ?_, by simpa using hg.gates_eq⟩
+    intro k h1 h2
+    simpa using hg.inside k h1 h2
+  · intro k g hk hg
+    simpa using hd.covered k g hk hg
+  · simpa using hd.separated
+
+/-- the range ends right after the run's last classical gate, except that of several trailing
+no-ops only one is cut off (`end -= 1` is applied once) -/
+theorem range_end (q : Quirks) (o : Nat) (R : List AGate) :
+    stopOf o R = if (R.getLast?.map np).getD false then o + R.length - 1 else o + R.length := rfl
+
 /-- every reported section is sound -/
 theorem sections_sound (q : Quirks) (K : Kernel) (hK : K.Sound) (n : Nat) (gs : List AGate)
     (secs : List Section) (h : decompile q K n gs = .ok secs) :
